@@ -1,16 +1,18 @@
 --------------------------- MODULE MCProvideWalk ---------------------------
-(* Phase M case spaces for ProvideWalk.
-   ShapeCases : every ordered DAG on MCN nodes (link lists without repetition, sharing, unreachable
-                nodes), plain available dag-pb nodes, one or two walks sharing the tracker, emit stop.
-   AttrCases  : every DAG on MCA nodes x a per-node attribute (available / identity / file entity /
+(* Phase M / G case spaces for ProvideWalk.
+   Shapes     : every ordered DAG on N nodes (link lists without repetition, sharing, unreachable nodes),
+                plain available dag-pb nodes, one or two walks sharing the tracker, emit stop, tracker kind.
+   AttrFam    : every DAG on N nodes x a per-node attribute (available / identity / file entity /
                 fails locality / fetch error) x WalkDAG|WalkEntityRoots x locality on|off.
    AliasCases : a CIDv0/CIDv1 alias pair (3 aliases 2) in every 4-node DAG, MapTracker vs cid.Set.
    BloomCases : the tracker driven directly, capacity 1..2, growth factor GF, false positives allowed. *)
 EXTENDS ProvideWalk
-CONSTANTS MCN, MCA, MCStops, MCTrks
 
 SeqsOver(S) == UNION {{s \in [1..k -> S] : \A i, j \in 1..k : i # j => s[i] # s[j]} : k \in 0..Cardinality(S)}
-GraphsOn(N) == {g \in [1..N -> SeqsOver(2..N)] : \A i \in 1..N : g[i] \in SeqsOver((i + 1)..N)}
+GraphsOn(N) == LET S == [i \in 1..N |-> SeqsOver((i + 1)..N)]
+                   RECURSIVE G(_)
+                   G(i) == IF i > N THEN {<<>>} ELSE {<<s>> \o t : s \in S[i], t \in G(i + 1)}
+               IN G(1)
 Const(N, v) == [i \in 1..N |-> v]
 
 Base(N, g) == [n |-> N, links |-> g, kind |-> Const(N, "pb"), ident |-> Const(N, FALSE), aliasOf |-> Const(N, 0),
@@ -18,17 +20,16 @@ Base(N, g) == [n |-> N, links |-> g, kind |-> Const(N, "pb"), ident |-> Const(N,
                trk |-> "map", cap |-> 0, roots |-> <<1>>, stop |-> 0]
 
 RootSeqs(N) == {<<1>>} \cup {<<r, 1>> : r \in 2..N} \cup {<<1, 1>>}
-ShapeCases == {[Base(MCN, g) EXCEPT !.roots = rs, !.stop = st, !.trk = tk] :
-                 g \in GraphsOn(MCN), rs \in RootSeqs(MCN), st \in MCStops, tk \in MCTrks}
+Shapes(N, Roots, Stops, Trks) ==
+  {[Base(N, g) EXCEPT !.roots = rs, !.stop = st, !.trk = tk] : g \in GraphsOn(N), rs \in Roots, st \in Stops, tk \in Trks}
 
 Attrs == {"ok", "id", "file", "nl", "ferr"}
 WithAttrs(c, a) == [c EXCEPT !.ident = [i \in 1..c.n |-> a[i] = "id"],
                              !.kind  = [i \in 1..c.n |-> IF a[i] = "file" THEN "file" ELSE "dir"],
                              !.loc   = [i \in 1..c.n |-> a[i] # "nl"],
                              !.fok   = [i \in 1..c.n |-> a[i] # "ferr"]]
-AttrCases == {[WithAttrs(Base(MCA, g), a) EXCEPT !.mode = m, !.locality = lo, !.roots = rs] :
-                g \in GraphsOn(MCA), a \in [1..MCA -> Attrs], m \in {"dag", "entity"}, lo \in BOOLEAN,
-                rs \in {<<1>>, <<2, 1>>}}
+AttrFam(N, Roots) == {[WithAttrs(Base(N, g), a) EXCEPT !.mode = m, !.locality = lo, !.roots = rs] :
+                        g \in GraphsOn(N), a \in [1..N -> Attrs], m \in {"dag", "entity"}, lo \in BOOLEAN, rs \in Roots}
 
 AliasCases == {[Base(4, g) EXCEPT !.aliasOf = <<0, 0, 2, 0>>, !.trk = tk] :
                  g \in {h \in GraphsOn(4) : h[2] = h[3]}, tk \in {"map", "cidset"}}
@@ -36,7 +37,11 @@ AliasCases == {[Base(4, g) EXCEPT !.aliasOf = <<0, 0, 2, 0>>, !.trk = tk] :
 BloomCases == {[Base(1, <<<<>>>>) EXCEPT !.roots = <<>>, !.trk = "bloom", !.cap = cp] : cp \in {1, 2}}
              \cup {[Base(1, <<<<>>>>) EXCEPT !.roots = <<>>, !.trk = "map"]}
 
-WalkCases == ShapeCases \cup AttrCases \cup AliasCases
+MQuick    == Shapes(4, RootSeqs(4), {0, 2}, {"map", "none"}) \cup AttrFam(3, {<<1>>}) \cup AliasCases
+MThorough == Shapes(5, {<<1>>, <<3, 1>>}, {0, 3}, {"map"}) \cup AttrFam(3, {<<1>>, <<2, 1>>}) \cup AliasCases
+GQuickE   == Shapes(4, {<<1>>, <<2, 1>>, <<1, 1>>}, {0, 2}, {"map", "bloom"}) \cup AttrFam(3, {<<1>>}) \cup AliasCases
+GThoroughE == Shapes(5, {<<1>>, <<3, 1>>}, {0, 3}, {"map"}) \cup Shapes(4, RootSeqs(4), {0, 2}, {"map", "bloom", "cidset", "none"})
+              \cup AttrFam(3, {<<1>>, <<2, 1>>}) \cup AliasCases
 \* the dedup counter is the only unbounded variable of the tracker-driver configurations
-BloomBound == dedup <= 3
+BloomBound == dedup <= 2
 =============================================================================
